@@ -26,11 +26,44 @@ def want_types(truth):
     return {k: ({"input": ti}, {"output": to}) for k, (ti, to) in truth.items()}
 
 
+def grouped_conv_graph(rng):
+    """Input -> Conv (shape left to inference, groups > 1) -> [pool] -> Output(None): a writable graph whose
+    conv input channels are groups * weight.shape[1]"""
+    groups = rng.choice([2, 3])
+    cin_per, cout = rng.randrange(1, 3), groups * rng.randrange(1, 3)
+    two_d = rng.random() < 0.7
+    k = [rng.randrange(1, 4) for _ in range(2 if two_d else 1)]
+    n = [rng.randrange(4, 10) for _ in k]
+    in_shape = [groups * cin_per] + n
+    conv = {"type": "Conv2d" if two_d else "Conv1d", "kwargs": [
+        ["input_shape", None], ["weight", gen.arr(rng, [cout, cin_per] + k)], ["stride", gen.pyint(1)],
+        ["padding", gen.pyint(0)], ["dilation", gen.pyint(1)], ["groups", gen.pyint(groups)], ["bias", gen.arr(rng, [cout])]]}
+    out = [cout] + [a - b + 1 for a, b in zip(n, k)]
+    nodes = [["in", {"type": "Input", "kwargs": [["input_type", gen.shape_arg(rng, in_shape, "input")]]}], ["conv", conv]]
+    truth = {"in": (in_shape, in_shape), "conv": (in_shape, out)}
+    edges = [["in", "conv"]]
+    last, last_shape = "conv", out
+    if two_d and rng.random() < 0.5:
+        nodes.append(["pool", {"type": "AvgPool2d", "kwargs": [["kernel_size", gen.pyint(1)], ["stride", gen.pyint(1)], ["padding", gen.pyint(0)]]}])
+        truth["pool"] = (out, out)
+        edges.append(["conv", "pool"]); last = "pool"
+    nodes.append(["out", {"type": "Output", "kwargs": [["output_type", None]]}])
+    truth["out"] = (last_shape, last_shape)
+    edges.append([last, "out"])
+    return {"type": "NIRGraph", "nodes": nodes, "edges": edges, "meta": None}, truth, ["conv", "out"]
+
+
 def run(ctx):
     rng = ctx.rng
     OPS = ["infer", "file_rt", "dict_rt"]
     for i in range(ctx.n(160)):
-        g, truth, erased = gen.consistent_graph(rng, max_nodes=7, wrong_output=False)
+        grouped = i % 8 == 7
+        if grouped:
+            # groups > 1 is outside C06/C08's stated domain (declared conv input channels ignore `groups`), so only
+            # the commutation clause -- which the code does satisfy there -- is checked on these graphs
+            g, truth, erased = grouped_conv_graph(rng)
+        else:
+            g, truth, erased = gen.consistent_graph(rng, max_nodes=7, wrong_output=False)
         want = want_types(truth)
         kinds = sorted(set(r["type"] for _, r in g["nodes"]))
         for k in kinds:
@@ -58,7 +91,7 @@ def run(ctx):
                 for j, op in enumerate(h):
                     graph = apply_op(graph, op)
                     inferred_once = inferred_once or op == "infer"
-                    if inferred_once and op != "infer":
+                    if inferred_once and op != "infer" and not grouped:
                         # annotations that the file/dict carries are regained without inference:
                         got = types_of(graph)
                         bad = [k for k in want if dict(g["nodes"])[k]["type"] not in ("SumPool2d", "AvgPool2d")
